@@ -197,7 +197,8 @@ def conclude(mod, merged, tier, seed, wall):
         else:
             violations.append(f)
     # replay files
-    rdir = os.path.join(env.VERIF, 'replays', prop)
+    outbase = os.environ.get('HIDVERIF_OUT') or env.VERIF      # self-tests against mutants write elsewhere
+    rdir = os.path.join(outbase, 'replays', prop)
     lines = []
     vkeys = set()
     for f in violations:
@@ -237,8 +238,8 @@ def conclude(mod, merged, tier, seed, wall):
         'coverage': coverage, 'assumptions': list(mod.ASSUMPTIONS), 'wall_s': round(wall, 2),
         'violations': len(vkeys),
     }
-    os.makedirs(os.path.join(env.VERIF, 'evidence'), exist_ok=True)
-    with open(os.path.join(env.VERIF, 'evidence', f'{prop}.json'), 'w') as fh:
+    os.makedirs(os.path.join(outbase, 'evidence'), exist_ok=True)
+    with open(os.path.join(outbase, 'evidence', f'{prop}.json'), 'w') as fh:
         json.dump(_jsonable(evidence), fh, indent=1)
     cs = ' '.join(f'{k}={v}' for k, v in sorted(merged['counters'].items()))
     print(f'{prop} {tier} seed={seed}: evaluations={merged["evaluations"]} distinct_nontrivial={nt} '
